@@ -57,6 +57,17 @@ func genText(r *Rng, wild bool) string {
 	if wild && r.Chance(1, 5) {
 		n = r.Pick(255, 256, 257, 300)
 	}
+	if r.Chance(1, 12) { // text that is not valid UTF-8: only continuation octets, only lead octets, a cut multi-octet rune
+		b := make([]byte, r.Pick(1, 64, 65, 66, 200, 255))
+		lo, span := 0x80, 0x40
+		if r.Chance(1, 3) {
+			lo, span = 0xC0, 0x40
+		}
+		for i := range b {
+			b[i] = byte(lo + r.Intn(span))
+		}
+		return string(b)
+	}
 	return string(r.Bytes(n))
 }
 
@@ -1068,6 +1079,10 @@ func dirtyXRHeaders(r *Rng, p rtcp.Packet) rtcp.Packet {
 		hdr.TypeSpecific = rtcp.TypeSpecificField(r.Bits(8, 8))
 		hdr.BlockLength = uint16(r.Bits(16, 16))
 		hdr.BlockType = rtcp.BlockTypeType(r.Bits(8, 8))
+		if r.Bool() { // as an earlier Marshal or Unmarshal of other content would have left it: right type, stale length
+			hdr.BlockType = rtcp.BlockTypeType(xrKindOf(b))
+			hdr.BlockLength = uint16(1 + r.Intn(40))
+		}
 		x.Reports[i] = xrBuild(xrKindOf(b), hdr, omits, vals, elems)
 	}
 	return x
